@@ -678,7 +678,7 @@ pub fn n_random(prop: &str, tier: u8) -> usize {
         ("C06", 0) => 300,
         ("C06", _) => 8000,
         (_, 0) => 1200,
-        (_, _) => 40_000,
+        (_, _) => 12_000,
     }
 }
 
